@@ -1,4 +1,5 @@
 import Jrpc.Codec
+import Jrpc.Auth
 /-
   Jrpc.Ops — dispatch of driver operations onto the model's executable definitions.
 -/
@@ -21,10 +22,47 @@ def opHandle (j : Json) : R Json := do
   return Json.mkObj [("resp", optJ respJ o.resp), ("invoked", optJ Json.str o.invoked),
                      ("chanReg", o.chanReg)]
 
+/-- op "agree": the client names `fmt ns field` (or its `rpc_method` tag) and the server dispatches it. -/
+def opAgree (j : Json) : R Json := do
+  let hj ← fld j "handler"
+  let h ← handler hj
+  let f ← fmtOf (← fld hj "fmt")
+  let name : Name :=
+    match (fld j "tag").bind (·.getStr?) with
+    | .ok t => t.toList
+    | .error _ => f.apply (strD j "ns" "").toList (strD j "field" "").toList
+  let o := h.handle false { id := .num "1", method := name, params := .arr (← (arrD j "elems").mapM strList) }
+  return Json.mkObj [("name", String.ofList name), ("ran", optJ Json.str o.invoked)]
+
+def optStrList (j : Json) (k : String) : R (Option (List String)) := do
+  match fld j k with
+  | .error _ => return none
+  | .ok Json.null => return none
+  | .ok v => return some (← strList v)
+
+/-- op "perm": one call through a PermissionedProxy field. -/
+def opPerm (j : Json) : R Json := do
+  let out := Auth.proxyCall (← optStrList j "attached") (← strList (← fld j "defaults")) (← str j "required")
+    (fun _ => ())
+  return Json.mkObj [("ran", out == .ran ())]
+
+/-- op "authhttp": one request through auth.Handler.ServeHTTP; `verify` is a finite table. -/
+def opAuthHttp (j : Json) : R Json := do
+  let tbl ← (arrD j "verify").mapM (fun e => do
+    return ((← str e "token").toList, ← optStrList e "perms"))
+  let verify (t : List Char) : Option (List String) := (tbl.lookup t).join
+  match Auth.serveHTTP (← str j "header").toList (← str j "query").toList verify with
+  | .unauthorized => return Json.mkObj [("status", 401), ("next", false), ("attached", Json.null)]
+  | .next a => return Json.mkObj [("status", 200), ("next", true),
+      ("attached", optJ (fun ps => Json.arr (ps.map Json.str).toArray) a)]
+
 def run (j : Json) : R Json := do
   match (← str j "op") with
   | "http" => opHttp j
   | "handle" => opHandle j
+  | "agree" => opAgree j
+  | "perm" => opPerm j
+  | "authhttp" => opAuthHttp j
   | op => throw s!"unknown op {op}"
 
 end Jrpc.Ops
